@@ -7,6 +7,8 @@ model says — so the property theorems of `Props/C15.lean` are re-checked again
   `GCD_eq`           lib/math.GCD  = `Model.C15.GCD`   (same loop, same fuel)
   `GCDM_eq`          lib/math.GCDM = `Model.C15.GCDM`  (recursion over prefixes = recursion over the reversed list)
   `spreadNames_eq`   `Model.C15.spreadNames` computes with the regenerated arithmetic of `config.SpreadNames`
+  `refused_eq`       the weights `decodeAmmo` refuses are the negative ones
+  `failed_sample_eq` the failed sample of the model carries the regenerated tag `<scenario><sep><step>|__EMPTY__` and code
 -/
 import Pandora.Gen.C15Scen
 import Pandora.Model.C15Lock
@@ -155,5 +157,15 @@ theorem spreadNames_eq (scs : List ScenarioCfg) :
   | a :: b :: rest =>
     simp only [spreadNames, Gen.C15Scen.spreadDiv, GCDM_eq, hw, ht, hc]
     rfl
+
+/-- `decodeAmmo` of the model refuses exactly the weights the code refuses -/
+theorem refused_eq (scs : List ScenarioCfg) :
+    (scs.any fun sc => decide (sc.weight < 0)) = scs.any fun sc => decide (Gen.C15Scen.weightRefused sc.weight) := rfl
+
+/-- the sample `reportErr` produces for a failed step: tag `<scenario>.<step>|__EMPTY__`, proto code 0, error set -/
+theorem failed_sample_eq {Req : Type} (scName stepName : String) :
+    (Ev.sample (failTag (scName ++ "." ++ stepName)) 0 true : Ev Req) =
+      .sample (scName ++ Gen.C15Scen.stepTagSep ++ stepName ++ Gen.C15Scen.tagSep ++ Gen.C15Scen.emptyTag)
+        Gen.C15Scen.failCode Gen.C15Scen.failTagged := rfl
 
 end Pandora.Bridge.C15Scen
